@@ -121,6 +121,8 @@ PROBE = [
     shape("post", "r/s", data=DATAS[5]),
 ]
 CALLER_PROBE = [PROBE[0], PROBE[4], PROBE[7]]
+PROBE_LIGHT = [PROBE[1], PROBE[2], PROBE[4], PROBE[7]]
+CALLER_PROBE_LIGHT = [PROBE[4]]
 SEQ_SHAPES = [PROBE[0], PROBE[4], shape("post", "r/s", data=DATAS[3], headers=HEADERS[1])]
 CALLER_SEQ = [PROBE[0], PROBE[4]]
 
@@ -132,12 +134,14 @@ def full_shapes():
 
 
 TIERS = {
-    "quick": {"H1": {"str": 3, "str-slash": 2, "list": 2, "dict-noids": 2},
+    # H1: (root, derivation depth, probe set)   H0: root -> family depth   H2: (root, derivations, requests)
+    "quick": {"H1": [("str", 3, "full"), ("str-slash", 2, "full"), ("list", 2, "full"), ("dict-noids", 2, "full")],
               "H0": {"str": 1, "str-slash": 1, "list": 1, "dict-noids": 1},
               "H2": [("str", 2, 2)]},
-    "thorough": {"H1": {"str": 4, "str-slash": 3, "list": 3, "dict-noids": 3},
+    "thorough": {"H1": [("str", 3, "full"), ("str", 4, "light"), ("str-slash", 3, "full"), ("list", 3, "full"),
+                        ("dict-noids", 3, "full")],
                  "H0": {"str": 2, "str-slash": 1, "list": 1, "dict-noids": 1},
-                 "H2": [("str", 2, 3), ("str", 3, 2), ("dict-noids", 2, 2), ("list", 2, 2)]},
+                 "H2": [("str", 2, 2), ("str", 2, 3), ("dict-noids", 2, 2), ("list", 2, 2)]},
 }
 
 
@@ -147,7 +151,8 @@ def bounds(tier):
             "H2_root_derivations_requests": t["H2"],
             "roots": {k: v["conn_data"] for k, v in ROOTS.items()},
             "layers": [P1, P2, PQ, PC1, PC2, BASIC, TOKEN, CLIENT, HDR, ["resp", "<position>"]],
-            "component_prefixes": PREFIX_MAP, "probe_shapes": len(PROBE),
+            "component_prefixes": PREFIX_MAP,
+            "probe_shapes": {"full": [len(PROBE), len(CALLER_PROBE)], "light": [len(PROBE_LIGHT), len(CALLER_PROBE_LIGHT)]},
             "full_shape_product": len(VERBS) * len(PATHS) * len(PARAMS) * len(DATAS) * len(HEADERS) * 2,
             "paths": PATHS, "params": PARAMS, "bodies": DATAS, "caller_headers": HEADERS, "verbs": VERBS}
 
@@ -577,17 +582,18 @@ def n_first_choices(rootname, last):
     return len(derivation_choices(_fresh_family(rootname), 0, last))
 
 
-def probe_ops(fam, seed):
+def probe_ops(fam, seed, probe="full"):
+    conn_shapes, caller_shapes = (PROBE, CALLER_PROBE) if probe == "full" else (PROBE_LIGHT, CALLER_PROBE_LIGHT)
     nodes = list(range(len(fam.nodes)))
     k = seed % len(nodes)
     nodes = nodes[k:] + nodes[:k]
     for node in nodes:
         if fam.nodes[node]["kind"] == "conn":
-            for s in PROBE:
+            for s in conn_shapes:
                 yield ["req", node, "conn", s]
         else:
             for entry in ENTRY_COMPONENT:
-                for s in CALLER_PROBE:
+                for s in caller_shapes:
                     yield ["req", node, entry, s]
 
 
@@ -631,11 +637,11 @@ def patterns(nd, nr):
 def shards(tier):
     t = TIERS[tier]
     out = []
-    for root, depth in t["H1"].items():
+    for root, depth, probe in t["H1"]:
         m = 1 if depth < 3 else 4 if depth == 3 else 16
         for i in range(n_first_choices(root, last=(depth == 1))):
             for r in range(m):
-                out.append(("H1", root, depth, i, (r, m)))
+                out.append(("H1", root, depth, i, (r, m), probe))
     for root, depth in t["H0"].items():
         if depth == 0:
             out.append(("H0", root, 0, None))
@@ -652,12 +658,18 @@ def shards(tier):
 
 # ------------------------------------------------------------------------------------ running histories
 def _signature(world, node, entry, cls, altered):
+    """Class of the mismatch + where it was seen.  Failures to build or to send keep the exact kind of
+    the derivation that made the node (``clone-list`` ...); mismatching requests are grouped coarsely."""
     n = world.fam.nodes[node]
     mb = n["made_by"]
     comp = ENTRY_COMPONENT[entry] if entry != "conn" else None
-    where = mb + ("+component" if comp is not None and PREFIX_MAP[comp] else "")
     if altered:
-        return f"C17:original-altered:{cls}:after-{world.last_deriv}"
+        return f"C17:original-altered:{cls}:after-{world.last_deriv.split('-')[0]}"
+    if cls.startswith("request-raises"):
+        return f"C17:{cls}:{mb}"
+    where = "clone" if mb.startswith("clone") else "caller" if n["kind"] == "caller" else "conn"
+    if comp is not None and PREFIX_MAP[comp]:
+        where += "+component"
     return f"C17:{cls}:{where}"
 
 
@@ -764,12 +776,21 @@ def shrink(rootname, ops, sig):
     return ops
 
 
+MAX_SHRINKS_PER_SHARD = 4
+
+
 def _report(acc, rootname, findings, shrunk_sigs):
-    for sig, text, obs, exp, ops in findings:
-        if shrunk_sigs.get(sig, 0) < 2 and "original-altered" not in sig:
-            shrunk_sigs[sig] = shrunk_sigs.get(sig, 0) + 1
+    """Every history with a finding is counted under the signature of its first finding; per shard the
+    first case of a signature is shrunk (bounded work), further ones are kept only while small."""
+    for sig, text, obs, exp, ops in findings[:1]:
+        if sig not in shrunk_sigs and len(shrunk_sigs) < MAX_SHRINKS_PER_SHARD:
+            shrunk_sigs[sig] = 1
             ops = shrink(rootname, ops, sig)
-        acc.violation(sig, {"root": rootname, "ops": ops}, text, obs, exp)
+            acc.violation(sig, {"root": rootname, "ops": ops}, text, obs, exp)
+        elif acc.viol_count[sig] < 50 and len(ops) <= 12:
+            acc.violation(sig, {"root": rootname, "ops": ops}, text, obs, exp)
+        else:
+            acc.viol_count[sig] += 1
 
 
 def _outcome(w):
@@ -799,9 +820,9 @@ def run_shard(shard, tier, seed, acc):
     shrunk = {}
     with _Seam():
         if kind == "H1":
-            _, _, depth, first, second = shard
+            _, _, depth, first, second, probe = shard
             for k, ops in enumerate(derivation_sequences(rootname, depth, first, second)):
-                w, findings, executed = run_ops(rootname, ops, lambda fam: probe_ops(fam, seed), seed)
+                w, findings, executed = run_ops(rootname, ops, lambda fam: probe_ops(fam, seed, probe), seed)
                 _account(acc, w, findings, len(executed),
                          {"H1": rootname, "derivations": ops} if k % 97 == seed % 97 else None)
                 _report(acc, rootname, findings, shrunk)
